@@ -157,6 +157,10 @@ func (f *File) GetDirectoryHeader() ([]byte, error) {
 		CommentLen:       uint16(len(f.Comment)),
 	}
 	if f.CompressedSize >= uint32Max || f.UncompressedSize >= uint32Max || f.Offset >= uint32Max {
+		// the ZIP64 field is prepended to the existing extra block; together they have to fit the 16-bit length
+		if len(f.Extra)+zip64ExtraLen+4 > uint16Max {
+			return nil, errors.New("extra field too long for a ZIP64 directory entry")
+		}
 		hdr.CompressedSize = uint32Max
 		hdr.UncompressedSize = uint32Max
 		hdr.Offset = uint32Max
